@@ -184,10 +184,15 @@ def check_c20(tier: str, seed: int) -> int:
         wv = {p["id"]: p["bad"] for p in r.printed}
     finally:
         shutil.rmtree(tmp, ignore_errors=True)
+    # root cause of an exponential family of three kinds: a pair of its kinds that is exponential on its own
+    bad_small = {frozenset(w["fam"]) for i, w in enumerate(wcases, start=1) if wv.get(i) and len(set(w["fam"])) <= 2}
     for i, w in enumerate(wcases, start=1):
         run.case("family:" + ">".join(w["fam"]), nontrivial=True)
         if wv.get(i):
-            run.violation(f"{sorted(wv[i])[0]}|kinds={'+'.join(sorted(set(w['fam'])))}", sorted(wv[i])[0],
+            ks = set(w["fam"])
+            subs = sorted("+".join(sorted(b)) for b in bad_small if b < ks or b == ks)
+            kinds = subs[0] if subs else "+".join(sorted(ks))
+            run.violation(f"{sorted(wv[i])[0]}|kinds={kinds}", sorted(wv[i])[0],
                           {"family": w["fam"], "depth": d, "renderer_calls": w["o"], "frames": w["frames"]})
     for j, shape in enumerate(("bindings", "chain", "list"), start=1):
         run.case("width:" + shape, nontrivial=True)
